@@ -676,10 +676,9 @@ theorem setSame_inv0 (cfg : Cfg) (s : State V) (hi : Inv0 s) (names : List Name)
   unfold setSame
   simp only
   generalize mergeLoop _ _ names (s.same, [], []) = r
-  obtain ⟨same', tmp, heads⟩ := r
-  simp only
-  have h1 := Inv0.with_same s same' hi
+  have h1 := Inv0.with_same s r.1 hi
   refine Inv0.with_same _ _ ?_
+  unfold ssCore
   split
   · exact sameReal_inv0 _ (sameReal_inv0 _ h1 _ _) _ _
   · exact sameReal_inv0 _ h1 _ _
@@ -690,12 +689,13 @@ theorem setSame_inv (cfg : Cfg) (hc : cfg.fixSame = false) (s : State V) (hi : I
   unfold setSame
   simp only [hc]
   generalize mergeLoop _ _ names (s.same, [], []) = r
-  obtain ⟨same', tmp, heads⟩ := r
-  simp only [Bool.false_eq_true, if_false, List.map_nil]
-  have h1 := Inv.with_same s same' hi
+  simp only [Bool.false_eq_true, if_false]
+  have h1 := Inv.with_same s r.1 hi
   refine Inv.with_same _ _ ?_
+  unfold ssCore
   split
-  · exact sameReal_inv _ (sameReal_inv _ h1 _) _
+  · simp only [List.map_nil]
+    exact sameReal_inv _ (sameReal_inv _ h1 _) _
   · exact sameReal_inv _ h1 _
 
 /-! ### whole calls -/
